@@ -438,7 +438,7 @@ pub fn run(ctx: &Ctx, rec: &mut Recorder) -> Result<(), String> {
         }
     }
     let nslot = slot_cases.len() as u64;
-    let nrand = ctx.qt(9_000u64, 1_200_000u64);
+    let nrand = ctx.qt(9_000u64, 400_000u64);
     let total = nslot + nrand;
     let mut worker: Option<Worker> = None;
     let wall = Duration::from_secs(ctx.qt(45, 90));
